@@ -79,6 +79,10 @@ Verdict(e) ==
       asb == ParseDocAsBuilt(e.doc, e.allow)
       md == ModelDiff(exp, e.result)
   IN IF e.want \in {"model", "links"} /\ ~WellFormed(e.doc) THEN "generator:not-well-formed"
+     ELSE IF e.want = "inert"
+          THEN \* C14: extra comments anywhere comments are allowed change nothing but comment attributes
+               LET idf == ModelDiff(MaskComments(exp), MaskComments(e.result)) IN
+               IF idf = "" THEN "" ELSE "not inert: " \o idf
      ELSE IF e.want # "route" /\ md # "" THEN (IF ModelDiff(asb, e.result) = "" THEN "regression:as-built-resolution-or-comment-equality(" \o md \o ")" ELSE md)
      ELSE IF e.want = "route"
           THEN \* C12: every way of supplying the source, with and without BOM
